@@ -2,13 +2,14 @@
 package main
 
 import (
-	"math"
 	"context"
 	"errors"
 	"fmt"
+	"math"
 	"net/http"
 	"os"
 	"strings"
+	"sync"
 	"time"
 
 	"github.com/cenkalti/backoff"
@@ -55,19 +56,20 @@ type cbRec struct {
 }
 
 type run struct {
-	c         cfg
-	b         *bk.Built
-	cbs       []cbRec
-	failsLeft int
-	faults    []string
-	issued    int
-	cancelled bool
-	viol      string
-	violKey   string
-	mock      *clock.Mock
-	bodyFinal map[string]int // last outcome per HTTP body
-	lostWrite bool
-	cwFailed  bool
+	c           cfg
+	b           *bk.Built
+	cbs         []cbRec
+	failsLeft   int
+	faults      []string
+	issued      int
+	cancelled   bool
+	overflowBad string
+	viol        string
+	violKey     string
+	mock        *clock.Mock
+	bodyFinal   map[string]int // last outcome per HTTP body
+	lostWrite   bool
+	cwFailed    bool
 }
 
 func (r *run) fail(k, m string) {
@@ -173,6 +175,11 @@ func body(c cfg, r *run) func(*vsched.Exec) {
 			vsched.GoNamed("backend.Run", func() { b.Run(ctx) })
 		}
 		done := make(chan int, c.Requests+4)
+		overflow := c.Always == 4 && c.Cancel
+		var lastCancel context.CancelFunc
+		phase := 0
+		cbObj := new(int)
+		var cbMu sync.Mutex
 		if c.Parallel {
 			// the backend has been running for a while (and may have failed to connect once already) when the
 			// first flush comes
@@ -191,9 +198,23 @@ func body(c cfg, r *run) func(*vsched.Exec) {
 				if c.Hist {
 					mm = mkMapHist(c.Series)
 				}
-				b.Backend.SendMetricsAsync(ctx, mm, func(errs []error) {
+				qctx := ctx
+				if overflow && q == c.Requests-1 {
+					// a request with a context of its own (a per-flush deadline): only this one is abandoned first
+					qctx, lastCancel = context.WithCancel(ctx)
+				}
+				b.Backend.SendMetricsAsync(qctx, mm, func(errs []error) {
 					if vsched.Aborting() {
 						return // deferred calls unwinding during the harness' own teardown are not part of the execution
+					}
+					if overflow {
+						// a dozen completions handed over a channel would interleave with their receipts in millions of
+						// ways that say nothing about the backend: here a completion is one visible step
+						vsched.Access(cbObj, true, "callback")
+						cbMu.Lock()
+						r.cbs = append(r.cbs, cbRec{q, append([]error{}, errs...)})
+						cbMu.Unlock()
+						return
 					}
 					r.cbs = append(r.cbs, cbRec{q, append([]error{}, errs...)})
 					vsched.Send(done, q)
@@ -202,7 +223,7 @@ func body(c cfg, r *run) func(*vsched.Exec) {
 					vsched.Recv(done) // flushData waits for the callbacks of one flush before the next one
 				}
 			}
-			if c.Parallel {
+			if c.Parallel && !overflow {
 				for q := 0; q < c.Requests; q++ {
 					vsched.Recv(done) // ... but the aggregators of one flush call the backend side by side
 				}
@@ -221,9 +242,24 @@ func body(c cfg, r *run) func(*vsched.Exec) {
 		}
 		for step := 0; step < steps; step++ {
 			vsched.Quiesce("idle")
-			if c.Always == 4 && c.Cancel && !r.cancelled {
-				// everything that fits is queued, one request is still waiting for room: now the flush is cancelled
-				r.cancelled = true
+			if overflow && phase == 0 {
+				// everything that fits is queued, one request is still waiting for room: that request is cancelled
+				phase, r.cancelled = 1, true
+				if lastCancel == nil {
+					r.overflowBad = fmt.Sprintf("only %d of %d requests were issued at quiescence", r.issued, c.Requests)
+					break
+				}
+				vsched.Cancel(lastCancel)
+				continue
+			}
+			if overflow && phase == 1 {
+				// ... and must be completed now, whatever happens to the ones in front of it; then everything is shut down
+				phase = 2
+				cbMu.Lock()
+				if len(r.cbs) != 1 || r.cbs[0].req != c.Requests-1 {
+					r.overflowBad = fmt.Sprintf("request %d was cancelled while it waited for room in the sender's queue; completions so far: %v", c.Requests-1, r.cbs)
+				}
+				cbMu.Unlock()
 				vsched.Cancel(cancel)
 				continue
 			}
@@ -258,6 +294,9 @@ func check(c cfg, r *run, outcomes map[string]struct{}) func(*vsched.Exec, vsche
 		}
 		if r.viol != "" {
 			return r.violKey, r.viol
+		}
+		if r.overflowBad != "" {
+			return "cancelled-request-not-completed", c.Kind + ": " + r.overflowBad
 		}
 		per := map[int]int{}
 		for _, cb := range r.cbs {
@@ -356,10 +395,11 @@ func configs() []cfg {
 	}
 	// two requests of one flush in flight together, three transport faults (refused, write error, refused again)
 	cs = append(cs, cfg{Kind: "statsdaemon-tcp", Series: 1, Requests: 2, Failures: 3, Parallel: true}, cfg{Kind: "graphite-tags", Series: 1, Requests: 2, Failures: 3, Parallel: true})
+	// more flush requests than the sender's queue holds (one held, ten queued, the twelfth waiting for room) while the
+	// peer refuses connections, then cancellation: the request that did not fit must be completed as well
+	cs = append(cs, cfg{Kind: "graphite-tags", Series: 1, Requests: 12, Always: 4, Cancel: true, Parallel: true})
 	if vrt.Thorough() {
-		// more flush requests than the sender's queue holds while the peer refuses connections, then cancellation: the
-		// request that did not fit must be completed as well (too many interleavings to finish; thorough tier only)
-		cs = append(cs, cfg{Kind: "graphite-tags", Series: 1, Requests: 13, Always: 4, Cancel: true, Parallel: true})
+		cs = append(cs, cfg{Kind: "graphite-tags", Series: 1, Requests: 13, Always: 4, Cancel: true, Parallel: true}, cfg{Kind: "statsdaemon-tcp", Series: 1, Requests: 12, Always: 4, Cancel: true, Parallel: true})
 	}
 	// a stream of several datagrams: a write error in the middle, reconnect, and a second write error
 	cs = append(cs, cfg{Kind: "statsdaemon-udp", Series: 170, Requests: 1, Failures: 2})
